@@ -44,3 +44,5 @@ json.dump(meta,open('/verif/seeded/%s/meta.json'%id,'w'),indent=1)
 print(id,"caught_by:",caught or "NONE","inconclusive:",incon)
 PY
 git -C /repo worktree remove --force $wt
+h=$(python3 -c "import hashlib,sys;print(hashlib.sha1(sys.argv[1].encode()).hexdigest())" $wt)
+rm -f /verif/.build/*-${h:0:8}.test /verif/.build/go.${h:0:10}.mod /verif/.build/go.${h:0:10}.sum 2>/dev/null
